@@ -1,5 +1,5 @@
 import Hyeong.Driver.OptOps
-import Hyeong.Model.Compile
+import Hyeong.Model.CompileIR
 /-! Driver: the Rust text the model of `build_source` emits (string literals raw). -/
 namespace Drv
 open HyE HyP HyC
@@ -15,5 +15,18 @@ def compileOp (level prog : String) : String :=
   match compileProg level.toNat! (decProg prog) with
   | .error e => "err " ++ (match e with | .encErr n => toString n | _ => "?")
   | .ok pr => "ok " ++ encText (emit pr).toList
+
+/-- the IR semantics of the compiled program (`Prog.run`): text written and status after at most `k` loop iterations -/
+def irRunOp (level prog stdin k : String) : String :=
+  match compileProg level.toNat! (decProg prog) with
+  | .error e => "err " ++ (match e with | .encErr n => toString n | _ => "?")
+  | .ok pr =>
+    match pr.run (decText stdin) k.toNat! with
+    | none => "PANIC"
+    | some (w, st) =>
+      s!"O={encText w.out} E={encText w.err} END " ++ (match st with
+        | .running => "cut"
+        | .ended => "ok"
+        | .stopped e => stopStr e)
 
 end Drv
